@@ -701,9 +701,9 @@ class Histories(Engine):
             st.tuples(st.just("upload"), ref, st.sampled_from(UPLOAD_KINDS), st.integers(0, 5), st.sampled_from([1, 1, 1, 0])),
             st.tuples(st.just("upload"), live_ref, st.sampled_from(UPLOAD_KINDS[:5]), st.integers(0, 2), st.just(1)),
             st.tuples(st.just("index"), ref),
-            st.tuples(st.just("index"), st.integers(8, 40)),
+            st.tuples(st.just("index"), st.tuples(st.just("last"), st.integers(0, 1))),
             st.tuples(st.just("edit_media"), ref, st.integers(1, 4), st.integers(0, 3)),
-            st.tuples(st.just("edit_media"), st.integers(8, 40), st.integers(1, 4), st.integers(0, 3)),
+            st.tuples(st.just("edit_media"), st.tuples(st.just("last"), st.integers(0, 2)), st.integers(1, 4), st.integers(0, 3)),
             st.tuples(st.just("delete_media"), ref, how3),
             st.tuples(st.just("add_key"), st.integers(0, 4), st.sampled_from(["valid", "valid2", "none", "short", "nothex"]),
                       st.sampled_from(["put", "form"])),
